@@ -171,6 +171,8 @@ def builtins():
         raise Unsupported('list of %r' % (v,))
     def _enumerate(p, args, kw):
         (it,) = args
+        if isinstance(it, ObjV) and '__iter__' in it.fields and not kw:
+            it = p.interp.call(it.fields['__iter__'], [it], {})      # an iterable object of the contract: its items
         if not isinstance(it, (IterV, SeqV)) or kw:
             raise Unsupported('enumerate of %r' % (it,))
         return IterV(lambda t, _it=it: TupleV([IntV(t), _it.at(t)]), it.length, 'enumerate(%s)' % it.name)
@@ -209,8 +211,22 @@ def builtins():
             return SeqV(lambda t: IntV(lo + t), n, 'range')
         raise Unsupported('range with a step or non-int arguments')
 
+    def _forall_items(p, it, t, body):
+        """forall t. 0 <= t < len(it) -> body(it[t]).  When the items are known to be computed from the items of an underlying sequence at
+        the positions t + shift (`index_shift`: the middle part of a starred unpacking, `_, *rest = row`), the bound variable is the
+        position u = t + shift in that sequence -- the same statement for any shift, but its terms `row[u]` can be matched against
+        the terms of the other facts about the row (`row[t + 1]` cannot: e-matching does not invert arithmetic).
+        `body` gets the item as a thunk, so that it is evaluated inside `bound` (no path decision on the bound variable)."""
+        from z3 import ForAll, simplify
+        sh = getattr(it, 'index_shift', 0)
+        if not sh:
+            return ForAll([t], Implies(And(0 <= t, t < it.length), body(lambda: it.at(t))))
+        return ForAll([t], Implies(And(sh <= t, t < it.length + sh), simplify(body(lambda: it.at(t - sh)))))
+
     def _all(p, args, kw):
         (it,) = args
+        if isinstance(it, ObjV) and '__iter__' in it.fields:
+            it = p.interp.call(it.fields['__iter__'], [it], {})      # an iterable object of the contract (a lazy map, a list object): its items
         if not isinstance(it, (IterV, SeqV)):
             raise Unsupported('all of %r' % (it,))
         from z3 import Bool, ForAll, Int as _Int
@@ -221,12 +237,14 @@ def builtins():
         from pyvc.engine import truthy
         # all(...) holds iff every element is truthy: (res -> forall t) and (not res -> a witness w)
         from pyvc.engine import bound
-        p.assume(Implies(res, ForAll([t], Implies(And(0 <= t, t < it.length), bound(p, lambda: truthy(it.at(t)))))))
+        p.assume(Implies(res, _forall_items(p, it, t, lambda item: bound(p, lambda: truthy(item())))))
         p.assume(Implies(Not(res), And(0 <= w, w < it.length, Not(bound(p, lambda: truthy(it.at(w)))))))
         return BoolV(res)
 
     def _any(p, args, kw):
         (it,) = args
+        if isinstance(it, ObjV) and '__iter__' in it.fields:
+            it = p.interp.call(it.fields['__iter__'], [it], {})      # an iterable object of the contract (a lazy map, a list object): its items
         if not isinstance(it, (IterV, SeqV)):
             raise Unsupported('any of %r' % (it,))
         from z3 import Bool, ForAll, Int as _Int
@@ -238,7 +256,7 @@ def builtins():
         # any(...) holds iff some element is truthy: (res -> a witness w) and (not res -> forall t: not truthy)
         from pyvc.engine import bound
         p.assume(Implies(res, And(0 <= w, w < it.length, bound(p, lambda: truthy(it.at(w))))))
-        p.assume(Implies(Not(res), ForAll([t], Implies(And(0 <= t, t < it.length), Not(bound(p, lambda: truthy(it.at(t))))))))
+        p.assume(Implies(Not(res), _forall_items(p, it, t, lambda item: Not(bound(p, lambda: truthy(item()))))))
         return BoolV(res)
 
     def _call_class(p, f, x):
@@ -257,6 +275,19 @@ def builtins():
         from pyvc.engine import truthy
         return BoolV(p.truth(args[0]) if args else False)
 
+    def _getattr(p, args, kw):
+        # getattr(o, 'name') with a literal name IS o.name (no default: the three-argument form is not modelled)
+        if kw or len(args) != 2 or not (isinstance(args[1], StrV) and args[1].value is not None):
+            raise Unsupported('getattr with a computed name or a default')
+        return p.interp.getattr(args[0], args[1].value)
+
+    def _setattr(p, args, kw):
+        # setattr(o, 'name', v) with a literal name IS `o.name = v` (the same store hook / field as the statement)
+        if kw or len(args) != 3 or not (isinstance(args[1], StrV) and args[1].value is not None):
+            raise Unsupported('setattr with a computed name')
+        p.interp.store_attr(args[0], args[1].value, args[2])
+        return NONE
+
     def _dict(p, args, kw):
         # dict(k=v, ...) == {'k': v, ...} (same insertion order); other forms are given by the contracts that need them
         if args:
@@ -264,7 +295,8 @@ def builtins():
         from pyvc.engine import DictV
         return DictV(dict(kw))
 
-    return {'dict': FuncV('dict', _dict), 'bool': FuncV('bool', _bool), 'map': FuncV('map', _map), 'set': FuncV('set', _set), 'zip': FuncV('zip', _zip), 'range': FuncV('range', _range),
+    return {'getattr': FuncV('getattr', _getattr), 'setattr': FuncV('setattr', _setattr),
+            'dict': FuncV('dict', _dict), 'bool': FuncV('bool', _bool), 'map': FuncV('map', _map), 'set': FuncV('set', _set), 'zip': FuncV('zip', _zip), 'range': FuncV('range', _range),
             'all': FuncV('all', _all), 'any': FuncV('any', _any),
             'enumerate': FuncV('enumerate', _enumerate), 'reversed': FuncV('reversed', _reversed),
             'isinstance': FuncV('isinstance', _isinstance), 'len': FuncV('len', _len), 'next': FuncV('next', _next),
